@@ -20,6 +20,7 @@ import Driver.GatesCmd
 import Driver.GrammarCmd
 import Driver.TkCmd
 import Driver.TensorCmd
+import Driver.CQCmd
 
 def handlers : List (String → List String → Option String) :=
   [ DV.CoreCmd.handle
@@ -36,6 +37,7 @@ def handlers : List (String → List String → Option String) :=
   , DV.GrammarCmd.handle
   , DV.TkCmd.handle
   , DV.TensorCmd.handle
+  , DV.CQCmd.handle
   ]
 
 def handle (line : String) : String :=
